@@ -34,6 +34,7 @@ func checkC02(c *Ctx, r *Report) {
 	r.rule("C02.R11", "the records and containers built in a loop do not share a variable: an address put into the element of an iteration is that of a variable of that iteration", 4)
 	r.rule("C02.R12", "the list of records the subscriber's file is written from only grows: every assignment of ChfUe.Records is an append to itself", 2)
 	r.rule("C02.R13", "the record that continues a session carries its identification: it is a decoder's copy of the closed record, or a record in which every member is assigned that the record opened at creation gets", 1)
+	r.rule("C02.R14", "the records of a session live in the subscriber context that stays in the pool: contexts enter the pool atomically (LoadOrStore, the stored one used) and are not removed (shared with C09.R4/R5/R6) - a session registered in an orphaned context is updated by nobody and its usage reaches no record", 3)
 	r.rule("C02.R6", "a record that continues a session starts with a fresh empty usage list (no shared backing array, no repeated containers)", 2)
 
 	c02RecordSelection(c, r)
@@ -103,6 +104,7 @@ func checkC02(c *Ctx, r *Report) {
 		}
 	}
 	r.shareFrom(c, checkC10, map[string]string{"C10.R1": "C02.R10", "C10.R2": "C02.R10", "C10.R3": "C02.R10", "C10.R6": "C02.R10"})
+	r.shareFrom(c, checkC09, map[string]string{"C09.R4": "C02.R14", "C09.R5": "C02.R14", "C09.R6": "C02.R14"})
 	c02DeepCopyFidelity(c, r, "C02.R7")
 	c02ChoiceSelectors(c, r, "C02.R8")
 	c02RecordsAgree(c, r)
@@ -874,6 +876,9 @@ func c02Cause(c *Ctx, r *Report) {
 			ret, ok := b.Instrs[len(b.Instrs)-1].(*ssa.Return)
 			if !ok || len(ret.Results) == 0 {
 				continue
+			}
+			if nilTestDominates(f, ret.Results[len(ret.Results)-1], b) {
+				continue // returned behind `if err != nil`: not a success exit
 			}
 			for _, lf := range leavesOf(ret.Results[len(ret.Results)-1]) {
 				if k, isC := lf.val.(*ssa.Const); !isC || k.Value != nil {
@@ -1771,7 +1776,6 @@ func c02Component(v ssa.Value) string {
 	return ""
 }
 
-
 // c02ContinuationIdentity (C02.R13): the ChargingRecord literals built in ChargingDataUpdate
 // (the split) assign every member OpenCDR assigns, except the usage list.
 func c02ContinuationIdentity(c *Ctx, r *Report, rule string) {
@@ -1817,6 +1821,33 @@ func c02ContinuationIdentity(c *Ctx, r *Report, rule string) {
 	upd := c.fn("internal/sbi/processor", "Processor.ChargingDataUpdate")
 	got, lits := membersOf(upd)
 	key := fnKey(upd) + "|identification of the continuation record"
+	// a continuation record opened with OpenCDR takes charging id and consumer identification from
+	// the *update* request, which may legally leave them out or carry other values than the create
+	openFn := c.fn("internal/sbi/processor", "Processor.OpenCDR")
+	reopened := ""
+	eachInstr(upd, func(_ *ssa.BasicBlock, _ int, ins ssa.Instruction) {
+		if call, ok := ins.(*ssa.Call); ok && call.Call.StaticCallee() == openFn && len(call.Call.Args) > 0 {
+			// OpenCDR(.., partial=true) only renumbers the existing record: a call whose last
+			// argument is true on the path (a constant, or the value the enclosing `if` tests)
+			flag := call.Call.Args[len(call.Call.Args)-1]
+			if k, isC := flag.(*ssa.Const); isC && k.Value != nil && k.Value.Kind() == constant.Bool && constant.BoolVal(k.Value) {
+				return
+			}
+			for _, b := range upd.Blocks {
+				if len(b.Instrs) == 0 || len(b.Succs) != 2 {
+					continue
+				}
+				if ifi, ok := b.Instrs[len(b.Instrs)-1].(*ssa.If); ok && ifi.Cond == flag && edgeDominates(b, b.Succs[0], call.Block()) {
+					return
+				}
+			}
+			reopened = posOf(c, call)
+		}
+	})
+	if reopened != "" {
+		r.viol(rule, key, reopened, "the update opens a record with OpenCDR from its own request: the record that continues the session carries the charging id, consumer name and addresses of the update request - which may omit them or differ - instead of those given when the session was created; usage reported after the split is filed under another identification")
+		return
+	}
 	if len(lits) == 0 {
 		r.proven(rule, key, c.rel(upd.Pos()), "the update builds no ChargingRecord of its own: the continuation record is a copy made by the decoder (C02.R7) with its usage list emptied (C02.R6)")
 		return
